@@ -398,5 +398,68 @@ func genWiring() {
 	sort.Strings(domWrites)
 	g.line("(* every sort of / assignment to a <x>.Domains list in the non-test sources *)")
 	g.line("Definition cookie_domains_writes : list (list N) := %s.", coqStrList(domWrites))
+	// per_call_state: three functions every request goes through whose working state must be local to the call - what
+	// they read their input from, and that the hasher / compressor / buffer is created inside the call and not shared:
+	// the statements of each that declare, create or read a source, in order
+	stateOf := func(rel, fn string, keep func(string) bool) []string {
+		var out []string
+		fd := funcDecl(rel, fn)
+		if fd == nil || fd.Body == nil {
+			return []string{"<missing " + fn + ">"}
+		}
+		ftxt := func(n ast.Node) string { return strings.Join(strings.Fields(exprText(rel, n)), " ") }
+		ast.Inspect(fd.Body, func(n ast.Node) bool {
+			switch st := n.(type) {
+			case *ast.AssignStmt, *ast.ExprStmt, *ast.RangeStmt, *ast.DeclStmt:
+				t := ftxt(st)
+				if r, ok := st.(*ast.RangeStmt); ok {
+					t = "range " + ftxt(r.X)
+				}
+				if keep(t) {
+					out = append(out, t)
+				}
+			}
+			return true
+		})
+		// any package-level variable the function's file declares besides errors / constants would be shared state
+		if f := parse(rel); f != nil {
+			for _, d := range f.Decls {
+				if gd, ok := d.(*ast.GenDecl); ok && gd.Tok.String() == "var" {
+					for _, sp := range gd.Specs {
+						vs := sp.(*ast.ValueSpec)
+						for _, nm := range vs.Names {
+							used := false
+							ast.Inspect(fd.Body, func(n ast.Node) bool {
+								if id, ok := n.(*ast.Ident); ok && id.Name == nm.Name {
+									used = true
+								}
+								return true
+							})
+							if used {
+								out = append(out, "<uses package variable "+nm.Name+">")
+							}
+						}
+					}
+				}
+			}
+		}
+		return out
+	}
+	has := func(subs ...string) func(string) bool {
+		return func(t string) bool {
+			for _, x := range subs {
+				if strings.Contains(t, x) {
+					return true
+				}
+			}
+			return false
+		}
+	}
+	g.line("(* extractAllowedEntities: where the auth-only constraints are read from *)")
+	g.line("Definition allowed_entities_source : list (list N) := %s.", coqStrList(stateOf("oauthproxy.go", "extractAllowedEntities", has("req.", "query"))))
+	g.line("(* HashNonce: the hasher is created in the call *)")
+	g.line("Definition hash_nonce_state : list (list N) := %s.", coqStrList(stateOf("pkg/encryption/nonce.go", "HashNonce", has("sha256", "hasher", "Lock"))))
+	g.line("(* lz4Compress: buffer and writer are created in the call; the result is a copy read out of the buffer *)")
+	g.line("Definition lz4_compress_state : list (list N) := %s.", coqStrList(stateOf("pkg/apis/sessions/session_state.go", "lz4Compress", has("buf", "lz4.NewWriter", "Lock"))))
 	g.write("Wiring.v")
 }
